@@ -25,7 +25,7 @@ COQ_IMPORTS = ("From Coq Require Import List ZArith QArith Qcanon Bool.\n"
 RULE = ("integer data tensors 3x3x2 .. 4x3x2, 2-way and 4-way (<= 24 entries) held as dense / sparse (3 stored orders) / Tucker / "
         "sum tensors; ranks 1-2; given integer starts (with and without weights) and seeded random starts; every mode order, "
         "optdims subsets; maxiters 1..3 from the same start (truncated runs = per-iteration trace); stoptol in {0, 1e-4, 0.05, 0.5}; "
-        "fixsigns on/off; non-trivial = data not all-equal; distinct = distinct (op,args). Cases whose exact Gram-Hadamard matrix has "
+        "fixsigns on/off; data whose unfoldings all have exact rank >= the requested rank (Fractions), or all-zero data; non-trivial = data not all-equal; distinct = distinct (op,args). Cases whose exact Gram-Hadamard matrix has "
         "|det|/prod(diag) < 1e-3 in the first exact sweep are skipped (ill-conditioned: float drift, not a defect). Tolerance 1e-6 relative.")
 TOL = "tol6"
 SHARD = 2
@@ -82,6 +82,8 @@ def gen_cases(rng, tier):
     def add(spec, R, init, dimorder, optdims, maxit, stoptol, fixsigns):
         X = U9.dense_of(spec)
         nt = len(set(X)) > 1
+        if any(X) and min(U9.unfolding_ranks(spec["shape"], X)) < R:
+            return          # outside the property's quantifier: an unfolding has rank below the requested rank
         cases.append(Case("cp_als", {"data": spec, "rank": R, "init": init, "dimorder": dimorder, "optdims": optdims,
                                      "maxiters": maxit, "stoptol": stoptol, "fixsigns": fixsigns}, nt))
 
@@ -97,7 +99,7 @@ def gen_cases(rng, tier):
             init = {"w": [1] * R, "f": _rand_factors(rng, shape, R)}
             add(spec, R, init, list(perm), None, [1, 2, 3], rng.choice([0.0, 1e-4]), rng.random() < 0.5)
     # random stream
-    for _ in range(260 if big else 44):
+    for _ in range(900 if big else 44):
         kind = rng.choice(kinds)
         shape = rng.choice(SHAPES3 if rng.random() < 0.75 else SHAPES_OTHER)
         N = len(shape)
@@ -385,6 +387,14 @@ def oracle(c, o):
                 return f"reported fit {float(r['fit'])} inconsistent with ||X-M||/||X||"
             if prev is not None and F(r["fit"]) < prev - tol:
                 return f"fit got worse: {float(prev)} -> {float(r['fit'])}"
+            prev = F(r["fit"])
+        else:
+            val = sum(m * m for m in M) - 2 * sum(x * m for x, m in zip(X, M))
+            sc = max(F(1), abs(val), sum(m * m for m in M))
+            if abs(F(r["fit"]) - val) > tol * sc or abs(F(r["normres"]) - val) > tol * sc:
+                return f"sum-tensor data: reported {float(r['fit'])} but ||M||^2 - 2<X,M> = {float(val)}"
+            if prev is not None and F(r["fit"]) > prev + tol * max(1, abs(prev)):
+                return f"||M||^2 - 2<X,M> increased: {float(prev)} -> {float(r['fit'])}"
             prev = F(r["fit"])
         if any(x < 0 for x in w) or any(w[i] < w[i + 1] for i in range(len(w) - 1)):
             return f"weights not non-negative decreasing: {[float(x) for x in w]}"
